@@ -51,7 +51,21 @@ let cmd_run r = run_with eta r
 (* eta.old: the search without the rescan (before repair 7df2246) *)
 let cmd_old r = run_with eta_old r
 
+(* eta.arb <args> fuel_doubling fuel_binary   (convert_to_arbitrary=True)
+   -> OK dur first last area shape_dur | n samples..   or   ERR class *)
+let cmd_arb r =
+  let a = rd_args r in
+  let fd = rd_nat r in
+  let fb = rd_nat r in
+  match eta_arb fd fb a with
+  | Err e -> "ERR " ^ err_name e
+  | OK o ->
+    let g = o.oa_grad in
+    Printf.sprintf "OK %s %s %s %s %s %s" (tok_of_z o.oa_dur) (tok_of_q g.a_first) (tok_of_q g.a_last)
+      (tok_of_q g.a_area) (tok_of_q g.a_shape_dur) (pr_list tok_of_q g.a_wave)
+
 let () =
+  Driver.register "eta.arb" cmd_arb;
   Driver.register "eta.run" cmd_run;
   Driver.register "eta.old" cmd_old;
   Driver.register "eta.find" cmd_find;
